@@ -794,6 +794,12 @@ var c17Watchdog = 2500 * time.Millisecond
 // c17Stage: a transaction is open (read hold), a restore arrives (announces the write lock), then the
 // transaction calls a method that takes the read lock again.
 func c17Stage(which string) string {
+	if strings.HasPrefix(which, "api:") {
+		return c17StageApi(which[4:])
+	}
+	if which == "migrate" {
+		return c17StageMigrate()
+	}
 	e, err := c17Open()
 	if err != nil {
 		return "setup-failed"
@@ -985,7 +991,7 @@ func c17Gen(tier string, seed uint64, out *bufio.Writer) {
 	for i := 0; i < nconc; i++ {
 		fmt.Fprintf(out, "conc %s %d %d\n", flatKinds[i%len(flatKinds)], 15+r.intn(25), r.next()%1000000)
 	}
-	fmt.Fprintf(out, "stage plain\nstage snapintx\nstage rootbucket\n")
+	fmt.Fprintf(out, "stage plain\nstage snapintx\nstage rootbucket\nstage migrate\n")
 	c17GenTlConc(out, tier, r)
 	fmt.Fprintf(out, "conc rwsR %d %d\n", 20, r.next()%1000000)
 	if tier == "thorough" {
